@@ -661,8 +661,57 @@ def unit_exactsolve_retry():
     return kit.run_unit("exactsolve_retry", run)
 
 
+def unit_broyden_solve():
+    """solve through the root finder (method broyden1): the function handed to it is the residual A X - M X E - B for
+    every combination of E and M"""
+    import importlib
+    sv = importlib.import_module("xitorch._impls.linalg.solve")
+    core.inject_builtins(sv)
+
+    def run():
+        c = ctx()
+        nr, nc, b = fresh_int("nr"), fresh_int("ncols"), fresh_int("b")
+        for d in (nr, nc, b):
+            c.assume(d.e >= 1)
+        AbsOp = kit.absop_class()
+        A = AbsOp("A", nr, (b,), hermitian=False)
+        for withE, withM in ((False, False), (True, False), (True, True)):
+            M = AbsOp("M", nr, (b,), hermitian=True) if withM else None
+            E = st.scalar("e", (b, nc)) if withE else None
+            B = st.vec("B", (b, nr, nc), (1,))
+            X = st.vec("X", (b, nr, nc), (1,))
+            seen = []
+
+            class Flat(st.Tensor):
+                def reshape(self, *shape):
+                    return X
+
+            def broyden_contract(fcn, x0, **opts):
+                seen.append((fcn, x0, opts))
+                return Flat("opq", ("flatX",), (b, nr * nc), st.float64)
+            tag = "broyden1_solve[%s%s]" % ("E" if withE else "noE", ",M" if withM else "")
+            with kit.patched(sv, "broyden1", broyden_contract):
+                ok, res = kit.call_or_fail(c, tag + ":does_not_raise", lambda: sv._rootfinder_solve("broyden1", A, B, E, M, maxiter=7))
+            if not ok or len(seen) != 1:
+                c.check(tag + ":root_finder_called_once", len(seen) == 1)
+                continue
+            fcn, x0, opts = seen[0]
+            c.check(tag + ":options_reach_the_root_finder", opts == {"maxiter": 7})
+            c.check(tag + ":result_is_reshaped_to_(batch,nr,ncols)", res is X)
+            xi = Flat("opq", ("flatXi",), (b, nr * nc), st.float64)
+            y = fcn(xi)
+            y = getattr(y, "_reshaped_from", y)
+            want = X.v.apply("A") - B.v
+            if withE:
+                want = want - (X.v.apply("M") if withM else X.v).scale(E.v)
+            kit.prove_vec(c, tag + ":function_is_the_residual_AX-MXE-B", y, want)
+        c.prove("canary", z3.BoolVal(False), kind="canary")
+    return kit.run_unit("broyden_solve", run)
+
+
 def units(tier):
     us = [
+        ("broyden_solve", unit_broyden_solve),
         ("exactsolve_retry", unit_exactsolve_retry),
         ("cg", lambda: unit_krylov("cg")),
         ("bicgstab", lambda: unit_krylov("bicgstab")),
